@@ -10,6 +10,7 @@ import random
 from rvlib import *  # noqa
 import grammars as GR
 import lrcommon as LC
+import bytecommon as BC
 from common import TRUSTED_BASE
 
 LEVEL = "proof"
@@ -150,6 +151,31 @@ def run(rep, tier, seed):
                                       dict(grammar=r.case.grammar, table=r.case.table, flags=r.case.flags,
                                            input=GR.render(w[i]), full=a, partial=b))
                         break
+    # the same statement at byte level with real lexical structure and Layout rules: partial parsing on/off
+    bcases, btexts, _ = BC.make_byte_cases(tier, seed, 2, n_random=40 if tier == "quick" else 300, layout_prob=0.5,
+                                           partial_prob=0.0)
+    pairs = []
+    for c in bcases:
+        c.flags["match"] = 0
+        c2 = Case(c.id + "_partial", c.grammar, c.inputs, algo=c.algo, table=c.table, run=c.run,
+                  flags=dict(c.flags, partial=1), meta=c.meta)
+        pairs.append((c, c2))
+    bres = run_cases([c for pr in pairs for c in pr], "c02b")
+    n_byte_pairs = 0
+    for k in range(0, len(bres), 2):
+        r0, r1 = bres[k], bres[k + 1]
+        if r0.status != "OK" or r0.dump is None or r0.dump.conflicts != 0:
+            continue
+        for i, text in enumerate(r0.case.inputs):
+            a, b = r0.results.get(("LR", i), ""), r1.results.get(("LR", i), "")
+            if a.startswith("OK"):
+                n_byte_pairs += 1
+                if a != b:
+                    rep.violation("partial-changes-result",
+                                  "enabling partial parsing changed the result of an accepted input",
+                                  dict(grammar=r0.case.grammar, table=r0.case.table, flags=r0.case.flags, input=text,
+                                       full=a, partial=b))
+                    break
     pt = rep.theorems or {}
     nthm = len(pt.get("theorems", []))
     rep.coverage = dict(
@@ -164,7 +190,7 @@ def run(rep, tier, seed):
              "non-trivial = inputs the real parser accepted (a tree was built and judged by derivation_b)",
         grammars_generated=len(cases), grammars_accepted=len(accepted), grammars_rejected_conflicts=rejected,
         grammars_compiler_error=errors, shapes=shapes,
-        inputs_ok=n_ok, inputs_err=n_err, inputs_other=n_other, partial_pairs_compared=n_partial_pairs, reused_parser_results_compared=n_seq,
+        inputs_ok=n_ok, inputs_err=n_err, inputs_other=n_other, partial_pairs_compared=n_partial_pairs, byte_level_partial_pairs_compared=n_byte_pairs, reused_parser_results_compared=n_seq,
         samples=samples)
     rep.assumptions = ["token-level: each terminal is a distinct one-letter string recognizer, tokens separated by "
                        "one space (lexical disambiguation is C06's subject)",
